@@ -415,6 +415,12 @@ impl Accept {
     }
 
     fn accept(&mut self, sockets: &mut [ServerSocketInfo], token: usize) {
+        // A readiness event of a listener can still be in the current batch of events after a
+        // pause has deregistered it.
+        if self.paused {
+            return;
+        }
+
         while self.avail.available() {
             #[cfg(actix_net_verif)]
             crate::verif::spin_tick();
